@@ -79,27 +79,59 @@ func (m *model) clone() *model {
 	return c
 }
 
-// applyOp applies T/B/D/A to the model; returns for D whether it must be accepted.
-func (m *model) applyOp(o op) (accept bool) {
+// The model states what the property states, not when this implementation happens to discard:
+//   - has && now < exp          the template MUST be stored and data MUST be accepted ("usable for at
+//     least the lifetime after its most recent (re)transmission");
+//   - !has                      it MUST be absent and data MUST be refused (never defined, invalidated,
+//     or its own expiry callback has completed: "none outlives its lifetime once its timer has run");
+//   - has && now >= exp         the lifetime has elapsed and the expiry has not completed yet: the
+//     implementation may already have discarded it (say, at lookup) or still hold it. Both are
+//     accepted and the model follows the observation (sync).
+const (
+	must = iota
+	mustNot
+	free
+)
+
+func (m *model) status(k int) int {
+	switch {
+	case !m.keys[k].has:
+		return mustNot
+	case m.now.Before(m.keys[k].exp):
+		return must
+	}
+	return free
+}
+
+// applyOp applies T/B/D/A to the model; for D it returns must / mustNot / free (acceptance).
+func (m *model) applyOp(o op) int {
 	switch o.kind {
 	case "T":
 		m.keys[o.key] = mkey{has: true, lay: o.lay, exp: m.now.Add(ttl)}
-		return true
+		return must
 	case "B":
 		m.keys[o.key] = mkey{}
 	case "D":
-		return m.keys[o.key].has
+		return m.status(o.key)
 	case "A":
 		m.now = m.now.Add(o.d)
 	}
-	return false
+	return mustNot
 }
 
-// applyCallback applies the completion of a callback for key k that read time n.
-func (m *model) applyCallback(k int, n time.Time) {
-	if m.keys[k].has && !m.keys[k].exp.After(n) {
+// applyCallback applies the completion of an expiry callback of key k whose timer had fired for
+// the deadline due. If that is the deadline of the stored template, "its timer has run": it must
+// be gone. A callback of an earlier arming (the template was refreshed after the timer fired)
+// obliges to nothing; whether it may discard is decided by status() as for any other step.
+func (m *model) applyCallback(k int, due time.Time) {
+	if m.keys[k].has && m.keys[k].exp.Equal(due) {
 		m.keys[k] = mkey{}
 	}
+}
+
+// verdict compares an acceptance with what applyOp returned.
+func okAcc(acc bool, want int) bool {
+	return want == free || acc == (want == must)
 }
 
 type world struct {
@@ -158,10 +190,10 @@ func (w *world) matches(m *model) (bool, string) {
 	n := 0
 	for i, mk := range m.keys {
 		ti, ok := have[w.keys[i]]
-		if mk.has != ok {
-			if mk.has {
-				return false, fmt.Sprintf("template of key %d is gone although it must be stored (expiry %ds, now %ds): dropped early", i, mk.exp.Unix()-t0.Unix(), m.now.Unix()-t0.Unix())
-			}
+		switch st := m.status(i); {
+		case st == must && !ok:
+			return false, fmt.Sprintf("template of key %d is gone although it must be stored (expiry %ds, now %ds): dropped early", i, mk.exp.Unix()-t0.Unix(), m.now.Unix()-t0.Unix())
+		case st == mustNot && ok:
 			return false, fmt.Sprintf("template of key %d is stored although it must be gone (now %ds)", i, m.now.Unix()-t0.Unix())
 		}
 		if !ok {
@@ -183,6 +215,21 @@ func (w *world) matches(m *model) (bool, string) {
 }
 
 var t0 = time.Unix(1700000000, 0)
+
+// sync lets the model follow the observation where the property leaves the choice (status free):
+// a template discarded at or after its deadline is gone for good.
+func (w *world) sync(m *model) {
+	have := map[key]bool{}
+	for _, ti := range w.dec.CP.VerifTemplates() {
+		have[key{ti.ObsDomainID, ti.TemplateID}] = true
+	}
+	for i := range m.keys {
+		if m.status(i) == free && !have[w.keys[i]] {
+			m.keys[i] = mkey{}
+			w.c.Add("discarded_after_deadline_before_the_callback_completed", 1)
+		}
+	}
+}
 
 // timerInvariants: every stored template has an expiry pending; no armed timer without a template.
 func (w *world) timerInvariants() bool {
@@ -256,14 +303,17 @@ func (w *world) step(o op) (bool, bool) {
 			return true, false
 		}
 		if o.kind == "B" {
-			wantAcc = false
+			wantAcc = mustNot
 		}
-		if acc != wantAcc {
+		if !okAcc(acc, wantAcc) {
 			cls := map[string]string{"T": "valid-template-rejected", "B": "bad-template-accepted", "D": "data-rejected-although-template-alive"}[o.kind]
 			if o.kind == "D" && acc {
 				cls = "data-accepted-without-template"
 			}
-			return true, w.fail(cls, fmt.Sprintf("%s: accepted=%v, model says %v (now %ds)", o, acc, wantAcc, w.m.now.Unix()-t0.Unix()))
+			return true, w.fail(cls, fmt.Sprintf("%s: accepted=%v, the model requires %v (now %ds)", o, acc, wantAcc == must, w.m.now.Unix()-t0.Unix()))
+		}
+		if o.kind == "D" && wantAcc == free {
+			w.c.Add("data_after_deadline_before_the_callback_completed", 1)
 		}
 	case "A":
 		w.m.applyOp(o)
@@ -279,7 +329,7 @@ func (w *world) step(o op) (bool, bool) {
 		if r.Finished {
 			// the callback never read the clock: it ran to completion; judge with the current time
 			if ki, ok := w.timerKey[r.P.T.ID]; ok {
-				w.m.applyCallback(ki, w.m.now)
+				w.m.applyCallback(ki, r.P.Due)
 			}
 			w.clk.Finish(r)
 		}
@@ -296,7 +346,7 @@ func (w *world) step(o op) (bool, bool) {
 			return true, false
 		}
 		if known {
-			w.m.applyCallback(ki, r.NowRead)
+			w.m.applyCallback(ki, r.P.Due)
 		}
 		w.c.Add("callbacks_completed", 1)
 	case "C":
@@ -311,13 +361,13 @@ func (w *world) step(o op) (bool, bool) {
 		}
 		// two legal serialisations
 		mA := w.m.clone() // callback first
-		mA.applyCallback(ki, r.NowRead)
+		mA.applyCallback(ki, r.P.Due)
 		accA := mA.applyOp(*o.sub)
 		mB := w.m.clone() // operation first
 		accB := mB.applyOp(*o.sub)
-		mB.applyCallback(ki, r.NowRead)
+		mB.applyCallback(ki, r.P.Due)
 		if o.sub.kind == "B" {
-			accA, accB = false, false
+			accA, accB = mustNot, mustNot
 		}
 		msg := w.msgFor(*o.sub)
 		done := make(chan bool)
@@ -336,15 +386,16 @@ func (w *world) step(o op) (bool, bool) {
 		okA, whyA := w.matches(mA)
 		okB, whyB := w.matches(mB)
 		switch {
-		case okA && acc == accA:
+		case okA && okAcc(acc, accA):
 			w.m = mA
 			w.c.Add("concurrent_resolved_callback_first", 1)
-		case okB && acc == accB:
+		case okB && okAcc(acc, accB):
 			w.m = mB
 			w.c.Add("concurrent_resolved_operation_first", 1)
 		default:
-			return true, w.fail("concurrent-outcome", fmt.Sprintf("%s: accepted=%v and the table match neither serialisation (callback first: acc=%v %s; operation first: acc=%v %s)", o, acc, accA, whyA, accB, whyB))
+			return true, w.fail("concurrent-outcome", fmt.Sprintf("%s: accepted=%v and the table match neither serialisation (callback first: must-accept=%v %s; operation first: must-accept=%v %s)", o, acc, accA == must, whyA, accB == must, whyB))
 		}
+		w.sync(w.m)
 		w.overtake++
 		return true, w.timerInvariants()
 	}
@@ -357,6 +408,7 @@ func (w *world) step(o op) (bool, bool) {
 		}
 		return true, w.fail(cls, fmt.Sprintf("after %s: %s", o, why))
 	}
+	w.sync(w.m)
 	return true, w.timerInvariants()
 }
 
